@@ -39,6 +39,7 @@ pub enum VerifManagerEvent {
 struct ScriptInner {
     events: VecDeque<TransportEvent>,
     calls: Vec<VerifCall>,
+    opened: Vec<(usize, Vec<Multiaddr>)>,
     fail_open: bool,
     fail_dial: bool,
     fail_negotiate: bool,
@@ -55,6 +56,25 @@ pub struct VerifScript {
 impl VerifScript {
     pub fn take_calls(&self) -> Vec<VerifCall> {
         std::mem::take(&mut self.inner.lock().calls)
+    }
+
+    /// The `(connection id, addresses)` arguments of the `open()` calls since the last call.
+    pub fn take_opened(&self) -> Vec<(usize, Vec<Multiaddr>)> {
+        std::mem::take(&mut self.inner.lock().opened)
+    }
+
+    /// `ConnectionOpened` for `address` after the attempts on `failed` timed out.
+    pub fn inject_connection_opened_with_errors(
+        &self,
+        connection_id: usize,
+        address: Multiaddr,
+        failed: Vec<Multiaddr>,
+    ) {
+        self.inner.lock().events.push_back(TransportEvent::ConnectionOpened {
+            connection_id: ConnectionId::from(connection_id),
+            address,
+            errors: failed.into_iter().map(|a| (a, DialError::Timeout)).collect(),
+        });
     }
 
     pub fn set_failures(&self, open: bool, dial: bool, negotiate: bool, accept: bool) {
@@ -188,6 +208,7 @@ impl Transport for ScriptedTransport {
     fn open(&mut self, connection_id: ConnectionId, addresses: Vec<Multiaddr>) -> crate::Result<()> {
         let mut inner = self.script.inner.lock();
         inner.calls.push(VerifCall::Open(connection_id.verif_as_usize(), addresses.len()));
+        inner.opened.push((connection_id.verif_as_usize(), addresses));
         if inner.fail_open {
             return Err(Error::ConnectionDoesntExist(connection_id));
         }
@@ -216,6 +237,13 @@ impl TransportManager {
             SupportedTransport::Tcp,
             Box::new(ScriptedTransport { script: script.clone() }),
         );
+        script
+    }
+
+    /// Install a scripted transport under `name` (e.g. a second one as the WebSocket transport).
+    pub fn verif_register_scripted_as(&mut self, name: SupportedTransport) -> VerifScript {
+        let script = VerifScript::default();
+        self.register_transport(name, Box::new(ScriptedTransport { script: script.clone() }));
         script
     }
 
